@@ -1,5 +1,6 @@
 (* model side of the correspondence of C04, part "legacy": the same line protocol as harness/ser.cpp.
-   Output: "<id> ok <u:units>" | "<id> err <code>"   (units = UTF-16 code units handed to the Writer).
+   Output: "<id> <legacy>|<new>"; each "ok <u:units>" | "err <code>" | "-"  (legacy: UTF-16 code units handed to the
+   Writer; new serializer, only for scripts with the raw marker: bytes for UTF-8, units otherwise).
    m_maxCharacter by encoding name as XalanTranscodingServices::getMaximumCharacterValue decides it
    (the set of values is in GenSerLegacy.lg_max_character_values). *)
 let ascii (s : string) : n list = List.init (String.length s) (fun i -> n_of_int (Char.code s.[i]))
@@ -38,9 +39,30 @@ let () =
             | "UTF-8" | "UTF-16" | "UTF-16LE" | "UTF-16BE" | "UTF-32" | "SHIFT_JIS" -> 65535
             | "ISO-8859-1" -> 255
             | _ -> 127 in
-          (match lg_document (lg_this_tree (n_of_int maxc) v11) lg_chk_this_tree (ascii ver) (ascii enc) (events rest) with
-           | Ok l -> Printf.printf "%s ok %s\n" id (token_of_u16 l)
-           | Oob -> Printf.printf "%s oob\n" id
-           | Thrown c -> Printf.printf "%s err %d\n" id (int_of_n c))
+          let show r = match r with
+            | Ok l -> Printf.sprintf "ok %s" (token_of_u16 l)
+            | Oob -> "oob"
+            | Thrown c -> Printf.sprintf "err %d" (int_of_n c) in
+          let evs = events rest in
+          let leg = show (lg_document (lg_this_tree (n_of_int maxc) v11) lg_chk_this_tree (ascii ver) (ascii enc) evs) in
+          (* the new serializer with the raw marker (SerLegacyRawDefs.v): only for scripts that contain it *)
+          let has_marker = List.exists lg_is_marker evs in
+          let uni =
+            if not has_marker then "-" else begin
+              let rec conv (l : lg_event list) : event list = match l with
+                | [] -> []
+                | LStart (n, a) :: r -> EStart (n, a) :: conv r
+                | LEnd n :: r -> EEnd n :: conv r
+                | LText s :: r -> EText s :: conv r
+                | LCdata s :: r -> ECdata s :: conv r
+                | LComment s :: r -> EComment s :: conv r
+                | LPI (t, d) :: r -> EPI (t, d) :: conv r in
+              let family = match enc with
+                | "UTF-8" -> fam_of EncUtf8 | "UTF-16" -> fam_of EncUtf16
+                | "ISO-8859-1" -> fam_of EncLatin1 | "US-ASCII" -> fam_of EncAscii
+                | _ -> fam_other rep_all in
+              show (u_serialize_raw family v11 (ascii ver) (ascii enc) (conv evs))
+            end in
+          Printf.printf "%s %s|%s\n" id leg uni
         with Failure m -> Printf.printf "%s badscript\n" id)
     | _ -> ())
